@@ -227,7 +227,7 @@ func TestVerifC13W(t *testing.T) {
 			loopModule := &Module{Manager: module.Manager, ctx: loopCtx}
 			done := make(chan struct{})
 			go func() { defer close(done); loopModule.rollbackLoop() }()
-			deadline := time.Now().Add(3 * time.Second)
+			deadline := time.Now().Add(20 * time.Second)
 			for count() != 0 && time.Now().Before(deadline) {
 				time.Sleep(5 * time.Millisecond)
 			}
@@ -235,7 +235,7 @@ func TestVerifC13W(t *testing.T) {
 			cancel()
 			select {
 			case <-done:
-			case <-time.After(3 * time.Second):
+			case <-time.After(20 * time.Second):
 				line.LoopSwept = false
 				line.Retry = "loop-did-not-stop"
 			}
